@@ -53,8 +53,9 @@ def config_text(nbrs: list[dict]) -> str:
         static = ''
         if n.get('watchdog'):
             static = 'static { ' + ' '.join(f'route {WATCHDOG_ROUTES[r]} watchdog {name}{" withdraw" if w else ""};' for r, name, w in n['watchdog']) + ' } '
+        cap = 'capability { multi-session true; } ' if n.get('multi_session') else ''
         out.append(
-            f'neighbor {n["peer"]} {{ router-id {n["router_id"]}; local-address {n["local_ip"]}; local-as {n["local_as"]}; peer-as {n["peer_as"]}; passive true; '
+            f'neighbor {n["peer"]} {{ router-id {n["router_id"]}; local-address {n["local_ip"]}; local-as {n["local_as"]}; peer-as {n["peer_as"]}; passive true; {cap}'
             f'family {{ {fam} }} {static}api {{ processes [ {SERVICE if n["attached"] else "other"} ]; }} }}'
         )
     return '\n'.join(out) + '\n'
@@ -156,6 +157,11 @@ class ApiRig:
             raise RuntimeError(f'configuration refused: {self.cfg.error}')
         self.neighbors = list(self.cfg.neighbors.values())
         assert [str(n.session.peer_address) for n in self.neighbors] == [s['peer'].lower() for s in self.specs], 'neighbor order'
+        for nb, sp in zip(self.neighbors, self.specs):
+            # the specification the oracle reasons with must be what the daemon calls the neighbor
+            want = ['neighbor', sp['peer'], 'local-ip', sp['local_ip'], 'local-as', str(sp['local_as']), 'peer-as', str(sp['peer_as']), 'router-id', sp['router_id'], 'family-allowed', sp.get('family_allowed', 'in-open')]
+            if nb.name().split(' ') != want:
+                raise RuntimeError(f'neighbor specification and Neighbor.name() differ: {want} / {nb.name()}')
         p = self.reactor.processes
         self.fp = FakePopen()
         p._configuration = self.cfg.processes
@@ -282,7 +288,9 @@ class ApiRig:
             w = nb.name().split(' ')
             assert len(w) == 12, w
             fams = ','.join(str(self.ids.family(f)) for f in nb.families()) or '-'
-            lines.append('api nbr ' + ' '.join(hx(x) for x in w[1::2]) + f' {fams} {int(spec["attached"])} {int(bool(nb.capability.route_refresh))}')
+            # the families the OutgoingRIB serves are its own (for a multi-session neighbor they are not the neighbor's)
+            ribfams = ','.join(str(i) for i in sorted(self.ids.family(f) for f in nb.rib.outgoing.families)) or '-'
+            lines.append('api nbr ' + ' '.join(hx(x) for x in w[1::2]) + f' {fams} {int(spec["attached"])} {int(bool(nb.capability.route_refresh))} {ribfams}')
         return lines
 
     # -- running --------------------------------------------------------------------------------
